@@ -371,6 +371,11 @@ def main(chk):
     for sh in shapes:
         tasks.append((o3_bind, (prog,) + sh))
     chk.parallel(_dispatch, tasks)
+    # ... and shard k's slot really holds shard k's servers: ConnectionPool::from_config (real coroutine) on shard tables whose string order
+    # differs from their numeric order ("+1" sorts before "0"), the C15 build obligation instantiated for this property
+    import checks.c15 as c15
+    for ids in (['0', '+1'], ['0', '1', '02']):
+        c15.o3_build(chk, prog, ids, 'any', prop='C06')
     # the selected shard is the one statements run on, an out-of-range SET SHARD is refused, the selection persists (Client::handle executed)
     hobl.handle_obligations(chk, chk.program('on'), {'C06'}, ['commands'])
 
